@@ -76,7 +76,7 @@ Definition embed_block (p : N) (b : list byte) (o : outcome a_block) : out (pres
   | Done a s' =>
       (Ok {| remaining := sl (pos s') (inp s');
              parsed := {| b_slice := view p b s';
-                          b_header := {| h_slice := sl p (firstn 80 b);
+                          b_header := {| h_slice := sl p (firstn 80 (bytes (view p b s')));
                                          h_version := ah_version (ab_header a); h_time := ah_time (ab_header a);
                                          h_bits := ah_bits (ab_header a); h_nonce := ah_nonce (ab_header a) |};
                           b_total := lenN (ab_txs a) |} |}, hi s')
@@ -160,7 +160,8 @@ Proof.
   rewrite Hview.
   assert (H0n : 0 <= n) by lia.
   rewrite (loop_fuel_len _ _ _ _ _ _ _ _ H0n LF), N.sub_0_r.
-  assert (Hf80 : firstn 80 b = hb).
-  { rewrite Hb. replace 80%nat with (N.to_nat (lenN hb)) by (rewrite Lhb; reflexivity). apply firstn_lenN_app. }
+  assert (Hf80 : firstn 80 (bytes (sl p c)) = hb).
+  { cbn [bytes sl]. unfold c, pre. rewrite <- !app_assoc.
+    replace 80%nat with (N.to_nat (lenN hb)) by (rewrite Lhb; reflexivity). apply firstn_lenN_app. }
   rewrite Hf80, Hpos. reflexivity.
 Qed.
